@@ -519,7 +519,7 @@ TARGETS = {
 }
 
 
-def check(prop, workdir):
+def check(prop, workdir, tier='quick'):
     """Regenerate + re-prove. Returns dict(obligations, discharged, axioms, names, ok, log, functions)."""
     res = {'obligations': 0, 'discharged': 0, 'axioms': [], 'names': [], 'ok': True, 'log': '', 'functions': []}
     for t in TARGETS.get(prop, []):
@@ -562,6 +562,16 @@ def check(prop, workdir):
                 ok = False
                 res['log'] += '%s: %s\n' % (f, p.stderr[-1500:])
                 break
+        if ok and tier == 'thorough':
+            # independent re-check of the generated definition, the proof file and everything they depend on
+            pc = subprocess.run(['timeout', '3000', 'coqchk', '-o', '-silent', '-Q', VERIF + '/coq/theories', 'ByC', '-Q', gd, 'Gen',
+                                 'Gen.' + t['proof'][:-2]], capture_output=True, text=True, cwd=gd)
+            co = pc.stdout + pc.stderr
+            entry['coqchk'] = {'rc': pc.returncode, 'axioms': [l.strip() for l in co.split('* Axioms:')[1].split('\n* ')[0].splitlines()
+                                                               if l.strip() and l.strip() != '<none>'] if '* Axioms:' in co else []}
+            if pc.returncode != 0:
+                ok = False
+                res['log'] += 'coqchk %s: %s\n' % (t['proof'], co[-600:])
         if ok and set(names) <= set(printed):
             blocks = re.findall(r'(Closed under the global context|Axioms:)', out)
             res['discharged'] += min(len(blocks), len(names))
